@@ -898,6 +898,9 @@ End Live.
 Lemma items_from_sig its : forall j, map bsig (items_from j its) = combine (seq j (length its)) its.
 Proof. induction its as [|it r IH]; intros j; simpl; [reflexivity|]. rewrite IH. reflexivity. Qed.
 
+Lemma items_from_length its : forall j, length (items_from j its) = length its.
+Proof. induction its as [|it r IH]; intros j; simpl; auto. Qed.
+
 Section Top.
   Variables St U : Type.
   Variable sm : sem St U.
@@ -1048,3 +1051,253 @@ Section Top.
     apply andb_true_iff in Hh. destruct Hh as [_ Ht]. apply Z.eqb_eq in Ht. rewrite H3, Ht. apply Z.eqb_refl.
   Qed.
 End Top.
+
+(* ------------------------------------------------------------------------------------------ *)
+(* the log oracle accepts every log of the model interpreter (so a log the oracle rejects is not a
+   log the model can produce, whatever the items do) *)
+
+Section OracleProofs.
+  Variables St U : Type.
+  Variable ueqb : U -> U -> bool.
+  Hypothesis ueqb_refl : forall u, ueqb u u = true.
+  Variable sm : sem St U.
+
+  Lemma veqb_refl v : veqb U ueqb v v = true.
+  Proof.
+    destruct v; simpl; auto using N.eqb_refl, eqb_reflx.
+    rewrite N.eqb_refl, Z.eqb_refl. reflexivity.
+  Qed.
+
+  Lemma oveqb_refl o : oveqb U ueqb o o = true.
+  Proof. destruct o; simpl; auto using veqb_refl. Qed.
+
+  Lemma step_calls_ok_intro : forall its j calls pre d0,
+    map (fun c : call U => (k_item c, k_desc c)) calls = firstn (length calls) (combine (seq j (length its)) its) ->
+    (forall pre' c post, calls = pre' ++ c :: post -> forall e, dlookup e (k_deps c) = expected e (pre ++ pre') d0) ->
+    (forall pre' c post, calls = pre' ++ c :: post -> complete c = false -> post = []) ->
+    (forallb complete calls = true -> length calls = length its) ->
+    step_calls_ok U ueqb j its calls pre d0 = true.
+  Proof.
+    induction its as [|it ir IH]; intros j calls pre d0 H1 H2 H3 H4.
+    - simpl in H1. rewrite firstn_nil in H1. destruct calls; [reflexivity|discriminate].
+    - destruct calls as [|c cr].
+      + exfalso. specialize (H4 eq_refl). discriminate.
+      + simpl in H1. injection H1 as Hj Hd Ht.
+        cbn [step_calls_ok]. rewrite Hj, Hd, Nat.eqb_refl. unfold item_eqb. rewrite N.eqb_refl. cbn [andb].
+        assert (Hin : forallb (fun e => oveqb U ueqb (dlookup e (k_deps c)) (expected e pre d0))
+                        (k_commit :: k_index :: k_merge :: i_requires it ++ map fst (k_deps c)) = true).
+        { apply forallb_forall. intros e _. rewrite (H2 [] c cr eq_refl e), app_nil_r. apply oveqb_refl. }
+        rewrite Hin. cbn [andb].
+        destruct (complete c) eqn:Ec.
+        * apply IH.
+          -- exact Ht.
+          -- intros pre' c' post E e. rewrite <- app_assoc. simpl. apply (H2 (c :: pre') c' post). rewrite E. reflexivity.
+          -- intros pre' c' post E Hc. apply (H3 (c :: pre') c' post); [rewrite E; reflexivity|exact Hc].
+          -- intros Hall. simpl in H4. rewrite Ec, Hall in H4. specialize (H4 eq_refl). lia.
+        * rewrite (H3 [] c cr eq_refl Ec). reflexivity.
+  Qed.
+
+  Lemma log_ok_nil_early full its todo idx : log_ok U ueqb true full its todo idx [] = true.
+  Proof.
+    revert idx. induction todo as [|a r IH]; intros idx; simpl; [reflexivity|].
+    destruct a as [c l|k oc l]; [|apply IH].
+    destruct (Nat.eqb (length its) 0) eqn:E; simpl; [|reflexivity].
+    apply Nat.eqb_eq in E. destruct its; [|discriminate]. simpl. apply IH.
+  Qed.
+
+  Lemma consume_loop_last bs m d m' calls err :
+    consume_loop St U sm bs m d = (m', calls, err) ->
+    forall pre c post, calls = pre ++ c :: post -> complete c = false -> post = [].
+  Proof.
+    intros H pre c post E Hc. apply consume_loop_calls in H. destruct H as [_ [H2 H3]].
+    destruct err as [e|].
+    - destruct (H3 e eq_refl) as [pre' [c' [E' [Hp [_ _]]]]]. rewrite E' in E. symmetry in E.
+      destruct (tail_incomplete complete _ _ _ _ _ E Hp Hc); auto.
+    - exfalso. destruct (H2 eq_refl) as [_ Hall]. rewrite E, forallb_app in Hall.
+      apply andb_true_iff in Hall. destruct Hall as [_ Hall]. simpl in Hall. rewrite Hc in Hall. discriminate.
+  Qed.
+
+  Variable plan : list action.
+  Variable items : list item.
+  Variable rootc : list binst.
+  Notation items0 := (items_from 0 items).
+  Hypothesis root_shape : map bsig rootc = map bsig items0.
+  Hypothesis Hhead : head_emergeb plan = true.
+  Hypothesis Hcont : contigb plan = true.
+  Hypothesis Hdist : distinctb plan = true.
+
+  Notation run_loop := (run_loop St U sm plan items0 rootc).
+
+  Definition consume_stop (s : stop St) : Prop :=
+    match s with
+    | StEnd _ => True
+    | StErr (EConsume _ _) => True
+    | StErr (EMissing _ _) => True
+    | _ => False
+    end.
+
+  Lemma consume_log_cons_commit cs (recs : list (srec U)) :
+    consume_log (RCommit cs :: recs) = cs_calls cs ++ consume_log recs.
+  Proof. reflexivity. Qed.
+
+  Lemma consume_log_cons_other rc (recs : list (srec U)) :
+    not_commit_rec U rc -> consume_log (rc :: recs) = consume_log recs.
+  Proof. destruct rc; simpl; intros H; [contradiction|reflexivity..]. Qed.
+
+  Lemma items0_length : length items0 = length items.
+  Proof. apply items_from_length. Qed.
+
+  Lemma run_loop_log_ok early : forall todo done pos st recs s,
+    plan = done ++ todo -> length done = pos ->
+    live_inv St items0 todo st ->
+    run_loop pos todo st = (recs, s) ->
+    (early = true \/ consume_stop s) ->
+    log_ok U ueqb early plan items todo (r_idx st) (consume_log recs) = true.
+  Proof.
+    induction todo as [|a r IH]; intros done pos st recs s Ep Hpos HI H Hstop; simpl in H.
+    - inversion H. subst. reflexivity.
+    - assert (Epr : plan = (done ++ [a]) ++ r) by (rewrite <- app_assoc; exact Ep).
+      assert (Hposr : length (done ++ [a]) = S pos) by (rewrite app_length; simpl; lia).
+      pose proof (exec_live St U sm plan items0 rootc root_shape pos a r st HI) as HL.
+      destruct a as [c its|k oc its].
+      + pose proof (exec_commit St U sm plan items0 rootc pos c its st) as HE.
+        destruct HI as [Hlive Hshape]. simpl in Hlive.
+        destruct (exec St U sm plan items0 rootc pos (ACommit c its) st) as [st1 rc1|rc1 e|] eqn:E.
+        * (* the step completed *)
+          destruct (RunModel.run_loop St U sm plan items0 rootc (S pos) r st1) as [recs' s'] eqn:EL.
+          inversion H. subst recs s. clear H.
+          destruct HE as [first [rest [m' [calls [E1 [EC [E2 E3]]]]]]]. subst its rc1.
+          simpl in Hlive. apply andb_true_iff in Hlive. destruct Hlive as [Hm _].
+          destruct HL as [HI1 _].
+          destruct (commit_step_order St U sm items0 first st _ _ _ _ Hshape Hm EC) as [Ho1 Ho2].
+          pose proof (consume_loop_calls St U sm _ _ _ _ _ _ EC) as [_ [Hc2 _]].
+          destruct (Hc2 eq_refl) as [_ Hall]. pose proof (Ho2 Hall) as Hlen. rewrite items0_length in Hlen.
+          rewrite consume_log_cons_commit. cbn [cs_calls]. cbn [log_ok].
+          replace (is_nil (calls ++ consume_log recs') && negb (Nat.eqb (length items) 0)) with false
+            by (rewrite <- Hlen; destruct calls; simpl; rewrite ?andb_false_r; reflexivity).
+          rewrite <- Hlen. rewrite firstn_app, Nat.sub_diag, firstn_all, skipn_app, Nat.sub_diag, skipn_all. simpl firstn. simpl skipn.
+          rewrite app_nil_r. simpl app.
+          assert (Hflag : is_merge plan pos (c_id c) = Nat.leb 2 (length (replay_branches plan (c_id c)))).
+          { rewrite <- Hpos.
+            pose proof (is_merge_spec plan done c (first :: rest) r Ep Hhead Hcont Hdist) as [Ha Hb].
+            destruct (is_merge plan (length done) (c_id c)) eqn:Em.
+            - symmetry. apply Nat.leb_le. auto.
+            - symmetry. apply Nat.leb_gt. destruct (le_lt_dec 2 (length (replay_branches plan (c_id c)))) as [Hle|Hlt]; [|exact Hlt].
+              specialize (Hb Hle). discriminate. }
+          rewrite <- Hflag.
+          rewrite step_calls_ok_intro.
+          -- unfold step_complete. rewrite Nat.eqb_refl, Hall. simpl.
+             replace (N.succ (r_idx st)) with (r_idx st1) by (subst st1; simpl; lia).
+             apply (IH (done ++ [ACommit c (first :: rest)]) (S pos) st1 recs' s'); auto.
+          -- rewrite Hlen. rewrite map_map, items_from_sig, Hlen in Ho1. exact Ho1.
+          -- intros pre' c0 post Ec e. simpl. eapply consume_loop_inputs; eauto.
+          -- eapply consume_loop_last; eauto.
+          -- intros _. first [reflexivity | exact Hlen].
+        * (* the step failed: its calls are the end of the log *)
+          inversion H. subst recs s. clear H.
+          destruct HE as [first [rest [m' [calls [E1 [EC E2]]]]]]. subst its rc1.
+          simpl in Hlive. apply andb_true_iff in Hlive. destruct Hlive as [Hm _].
+          destruct (commit_step_order St U sm items0 first st _ _ _ _ Hshape Hm EC) as [Ho1 Ho2].
+          pose proof (consume_loop_calls St U sm _ _ _ _ _ _ EC) as [_ [_ Hc3]].
+          destruct (Hc3 e eq_refl) as [pre [c0 [Ecalls [Hp [Hc0 _]]]]].
+          assert (Hnall : forallb complete calls = false).
+          { rewrite Ecalls, forallb_app. simpl. rewrite Hc0, andb_false_r. reflexivity. }
+          assert (Hle : length calls <= length items).
+          { rewrite <- items0_length, <- (map_length bsig items0), <- (map_length (call_binst U) calls), <- (map_length bsig).
+            rewrite Ho1. rewrite firstn_length. lia. }
+          rewrite consume_log_cons_commit. cbn [cs_calls]. simpl consume_log. rewrite app_nil_r. cbn [log_ok].
+          replace (is_nil calls && negb (Nat.eqb (length items) 0)) with false
+            by (rewrite Ecalls; destruct pre; reflexivity).
+          rewrite firstn_all2 by exact Hle. rewrite skipn_all2 by exact Hle.
+          assert (Hflag : is_merge plan pos (c_id c) = Nat.leb 2 (length (replay_branches plan (c_id c)))).
+          { rewrite <- Hpos.
+            pose proof (is_merge_spec plan done c (first :: rest) r Ep Hhead Hcont Hdist) as [Ha Hb].
+            destruct (is_merge plan (length done) (c_id c)) eqn:Em.
+            - symmetry. apply Nat.leb_le. auto.
+            - symmetry. apply Nat.leb_gt. destruct (le_lt_dec 2 (length (replay_branches plan (c_id c)))) as [Hle2|Hlt]; [|exact Hlt].
+              specialize (Hb Hle2). discriminate. }
+          rewrite <- Hflag.
+          rewrite step_calls_ok_intro.
+          -- unfold step_complete. rewrite Hnall, andb_false_r. reflexivity.
+          -- rewrite map_map, items_from_sig in Ho1. exact Ho1.
+          -- intros pre' c1 post Ec e0. simpl. eapply consume_loop_inputs; eauto.
+          -- eapply consume_loop_last; eauto.
+          -- intros Hall. rewrite Hall in Hnall. discriminate.
+        * inversion H. subst recs s. destruct Hstop as [->|[]]. apply log_ok_nil_early.
+      + pose proof (exec_other St U sm plan items0 rootc pos k oc its st) as HE.
+        destruct (exec St U sm plan items0 rootc pos (AOther k oc its) st) as [st1 rc1|rc1 e|] eqn:E.
+        * destruct (RunModel.run_loop St U sm plan items0 rootc (S pos) r st1) as [recs' s'] eqn:EL.
+          inversion H. subst recs s. clear H.
+          destruct HE as [Hnc [Hidx _]]. destruct HL as [HI1 _].
+          rewrite consume_log_cons_other by exact Hnc. cbn [log_ok]. rewrite <- Hidx.
+          apply (IH (done ++ [AOther k oc its]) (S pos) st1 recs' s'); auto.
+        * inversion H. subst recs s. clear H.
+          rewrite consume_log_cons_other by exact HE. cbn [log_ok].
+          destruct Hstop as [->|Hs].
+          -- apply log_ok_nil_early.
+          -- exfalso. simpl in Hs.
+             (* a failing non-commit action fails with a hibernate/boot error *)
+             unfold RunModel.exec in E. destruct its as [|first rest]; [discriminate|]. simpl in E.
+             destruct k.
+             ++ destruct (clone_items St (bget first (r_br st)) (length rest) (r_store st) (r_next st)) as [[[? ?] ?] ?]. discriminate.
+             ++ destruct (merge_loop St U sm 0 (bget first (r_br st)) (map (fun b => bget b (r_br st)) rest) (r_store st)) as [[? ?]|]; discriminate.
+             ++ destruct (N.eqb first 1); [discriminate|].
+                destruct (clone_items St rootc 1 (r_store st) (r_next st)) as [[[? ?] cl] ?]. destruct cl; discriminate.
+             ++ discriminate.
+             ++ destruct (hb_loop St (s_hibernate St U sm) EHibernate (bget first (r_br st) ++ flat_map (fun b => bget b (r_br st)) rest) (r_store st))
+                  as [[m' calls] [e0|]] eqn:EH; [|discriminate].
+                inversion E. subst e. clear E.
+                assert (exists it code, e0 = EHibernate it code) as [it [code ->]]; [|exact Hs].
+                clear -EH. revert EH. generalize (r_store st). generalize (bget first (r_br st) ++ flat_map (fun b => bget b (r_br st)) rest).
+                intros l. revert m' calls. induction l as [|b l IHl]; intros m' calls m0 EH; simpl in EH; [discriminate|].
+                destruct (i_hib (b_desc b)); [|eauto].
+                destruct (s_hibernate St U sm (b_item b) (m0 (b_inst b))) as [st' [code|]].
+                ** inversion EH. eauto.
+                ** destruct (hb_loop St (s_hibernate St U sm) EHibernate l (sset St (b_inst b) st' m0)) as [[m2 calls2] err2] eqn:E2.
+                   inversion EH. subst. eauto.
+             ++ destruct (hb_loop St (s_boot St U sm) EBoot (bget first (r_br st) ++ flat_map (fun b => bget b (r_br st)) rest) (r_store st))
+                  as [[m' calls] [e0|]] eqn:EH; [|discriminate].
+                inversion E. subst e. clear E.
+                assert (exists it code, e0 = EBoot it code) as [it [code ->]]; [|exact Hs].
+                clear -EH. revert EH. generalize (r_store st). generalize (bget first (r_br st) ++ flat_map (fun b => bget b (r_br st)) rest).
+                intros l. revert m' calls. induction l as [|b l IHl]; intros m' calls m0 EH; simpl in EH; [discriminate|].
+                destruct (i_hib (b_desc b)); [|eauto].
+                destruct (s_boot St U sm (b_item b) (m0 (b_inst b))) as [st' [code|]].
+                ** inversion EH. eauto.
+                ** destruct (hb_loop St (s_boot St U sm) EBoot l (sset St (b_inst b) st' m0)) as [[m2 calls2] err2] eqn:E2.
+                   inversion EH. subst. eauto.
+        * inversion H. subst recs s. destruct Hstop as [->|[]]. apply log_ok_nil_early.
+  Qed.
+End OracleProofs.
+
+Section TopOracle.
+  Variables St U : Type.
+  Variable ueqb : U -> U -> bool.
+  Variable sm : sem St U.
+  Variables (items : list item) (plan : list action) (nc : N).
+
+  (* the run ended normally or by a failing Consume call (not between two steps) *)
+  Definition consume_outcome (o : outcome U) : Prop :=
+    match o with
+    | Done _ _ => True
+    | Failed (EConsume _ _) => True
+    | Failed (EMissing _ _) => True
+    | _ => False
+    end.
+
+  Theorem run_log_ok :
+    (forall u, ueqb u u = true) ->
+    head_emergeb plan = true -> contigb plan = true -> distinctb plan = true -> liveb plan = true ->
+    forall early, (early = true \/ consume_outcome (ro_out (run St U sm items plan nc))) ->
+    log_ok U ueqb early plan items plan 0 (consume_log (ro_recs (run St U sm items plan nc))) = true.
+  Proof.
+    intros Hrefl Hh Hc Hd Hl early Hstop.
+    destruct (run_unfold St U sm items plan nc) as [rootc [m1 [next1 [recs [s [Hroot [EL [ER EO]]]]]]]].
+    rewrite ER. rewrite EO in Hstop.
+    assert (HI : live_inv St (items_from 0 items) plan (mkR [] m1 next1 0%N 0%Z)).
+    { split; [exact Hl|]. intros k br Hb. discriminate. }
+    apply (run_loop_log_ok St U ueqb Hrefl sm plan items rootc Hroot Hh Hc Hd early plan [] 0 _ recs s eq_refl eq_refl HI EL).
+    destruct Hstop as [He|Hs]; [left; exact He|]. right.
+    destruct s as [st|e|]; simpl; auto.
+  Qed.
+End TopOracle.
